@@ -356,3 +356,24 @@ def shrink_ops(ops, fails, rounds=15):
             break
         cur = cands[hit[0]]
     return cur
+
+
+def coq_eval_nested(header, term, timeout=600):
+    """Evaluate a term of type list (list N) / list (list (list N)) ... with vm_compute and parse
+    Coq's printed answer into nested python lists of ints."""
+    import ast as _ast
+    out = coq_eval("From Coq Require Import ZArith NArith List.\n" + header, term, timeout)
+    if "Error" in out and "=" not in out.split("Error")[0]:
+        raise RuntimeError("coqc failed: " + out[-1500:])
+    i = out.index("=")
+    body = out[i + 1:]
+    j = body.rfind(":")
+    body = body[:j]
+    body = re.sub(r"%[A-Za-z]+", "", body)
+    body = re.sub(r"\s+", "", body).replace(";", ",")
+    return _ast.literal_eval(body)
+
+
+def u_term(s):
+    """Coq term (list N) for a python str given as code points"""
+    return "[" + "; ".join(str(ord(ch)) for ch in s) + "]%N" if s else "([] : list N)"
